@@ -369,7 +369,8 @@ class CRS:
         from . import geom
 
         if isinstance(x, geom.BoundingBox):
-            _bbox = x
+            # like a Geometry: a box in another CRS is converted to lon/lat, one without CRS is assumed to be lon/lat
+            _bbox = x if x.crs is None else x.to_crs("epsg:4326")
         elif isinstance(x, geom.Geometry):
             if x.crs is not None:
                 _bbox = x.to_crs("epsg:4326").boundingbox
